@@ -99,7 +99,7 @@ func (p *cproc) run(ct, ccq map[string]string, now uint64) (map[string]string, m
 	for _, k := range sortedKeys(ct) {
 		fmt.Fprintf(&sb, "ct %s %s\n", hex.EncodeToString([]byte(k)), hex.EncodeToString([]byte(ct[k])))
 	}
-	for _, k := range sortedKeys(ccq) {
+	for _, k := range sortedByTuple(ccq) { // the C stub map iterates in insertion order = key-tuple order
 		fmt.Fprintf(&sb, "ccq %s %s\n", hex.EncodeToString([]byte(k)), hex.EncodeToString([]byte(ccq[k])))
 	}
 	fmt.Fprintf(&sb, "run %d\n", now)
@@ -140,6 +140,15 @@ func sortedKeys(m map[string]string) []string {
 }
 
 // ---------------------------------------------------------------- maps, time, cleaner plumbing
+
+func sortedByTuple(m map[string]string) []string {
+	ks := make([]string, 0, len(m))
+	for k := range m {
+		ks = append(ks, k)
+	}
+	sort.Slice(ks, func(i, j int) bool { return decKey([]byte(ks[i])).less(decKey([]byte(ks[j]))) })
+	return ks
+}
 
 type kt struct{ p, a, pa, b, pb uint32 }
 
@@ -201,8 +210,10 @@ func (s *shim) Now() time.Time                  { return time.Unix(0, s.ktime) }
 func (s *shim) Since(t time.Time) time.Duration { return time.Unix(0, s.ktime).Sub(t) }
 
 type hitT struct {
-	k kt
-	t uint64
+	k     kt
+	t     uint64
+	renew bool   // a NEW connection re-using the forward tuple, NATted to backend rb
+	rb    uint32
 }
 
 type state struct {
@@ -222,7 +233,13 @@ type state struct {
 func (s *state) Run(opts ...conntrack.RunOpt) (*conntrack.CleanupContext, error) {
 	if s.runs == 0 {
 		for _, h := range s.hits {
-			s.packet(h.k, h.t)
+			if h.renew {
+				rk := kt{h.k.p, h.k.a, h.k.pa, h.rb, 8080}
+				s.ct.Contents[string(h.k.key().AsBytes())] = string(mkValue(1, h.t, 0, 0, rk).AsBytes())
+				s.ct.Contents[string(rk.key().AsBytes())] = string(mkValue(2, h.t, 0, 0, kt{}).AsBytes())
+			} else {
+				s.packet(h.k, h.t)
+			}
 		}
 	}
 	s.runs++
@@ -364,10 +381,17 @@ func exec2(h *rt.H, s *state, op string) string {
 		s.now = u(w[1])
 		s.hits = nil
 		hit := map[kt]bool{}
+		renewed := map[kt]bool{}
 		for _, x := range w[2:] {
 			p := strings.Split(x, ":")
 			k := keyOf(p[1:6])
-			s.hits = append(s.hits, hitT{k, u(p[6])})
+			if p[0] == "n" {
+				s.hits = append(s.hits, hitT{k: k, t: u(p[6]), renew: true, rb: uint32(u(p[7]))})
+				renewed[k] = true
+				hit[kt{k.p, k.a, k.pa, uint32(u(p[7])), 8080}] = true // the new connection's reverse entry is (re)written
+			} else {
+				s.hits = append(s.hits, hitT{k: k, t: u(p[6])})
+			}
 			hit[k] = true
 		}
 		// what the maps look like when the scan starts (for the oracle)
@@ -416,6 +440,11 @@ func exec2(h *rt.H, s *state, op string) string {
 				continue
 			}
 			h.Count("scan:deleted")
+			if renewed[k] {
+				h.OracleFail("deleted-new-connection", "the forward entry of a connection created AFTER the judgement was removed",
+					map[string]any{"op": op, "key": k.String()})
+				continue
+			}
 			// safety: a removed entry (or its NAT pair) was judged idle past its timeout and carried no traffic since
 			switch b.typ {
 			case conntrack.TypeNATForward:
@@ -439,7 +468,7 @@ func exec2(h *rt.H, s *state, op string) string {
 						map[string]any{"op": op, "key": k.String()})
 				} else {
 					for _, f := range fwdOf[k] {
-						if hit[f] {
+						if hit[f] && !renewed[f] {
 							h.OracleFail("deleted-live", "reverse NAT entry removed although a forward packet refreshed it after the judgement",
 								map[string]any{"op": op, "key": k.String()})
 						}
@@ -593,6 +622,10 @@ func genCase(h *rt.H) []string {
 		if len(ents) > 0 {
 			for j, m := 0, h.Intn(3); j < m; j++ { // packets between judgement and clean-up
 				e := rt.Pick(h, ents)
+				if e.typ == 1 && h.Chance(0.3) { // a new connection re-uses the forward tuple and is NATted to another backend
+					sop += fmt.Sprintf(" n:%d:%d:%d:%d:%d:%d:%d", e.k.p, e.k.a, e.k.pa, e.k.b, e.k.pb, now+1+uint64(h.Intn(1000)), 0x0A000300+uint32(1+h.Intn(4)))
+					continue
+				}
 				sop += fmt.Sprintf(" h:%d:%d:%d:%d:%d:%d", e.k.p, e.k.a, e.k.pa, e.k.b, e.k.pb, now+1+uint64(h.Intn(1000)))
 			}
 		}
@@ -607,7 +640,7 @@ func main() {
 	defer h.Close()
 	h.Rule = "case = timeouts (defaults or random) + 1..7 conntrack entries/NAT pairs (normal, fwd+rev, fwd only, rev only, two fwd sharing a rev; " +
 		"last_seen at / just past / just before the timeout that applies; TCP state bits established/FIN/RST/DSR) + EntryExpired probes + 1..3 scans, " +
-		"each with 0..2 packets arriving between the scanner's judgement and the kernel cleaner; distinct = distinct op sequence; non-trivial = a scan queued at least one entry"
+		"each with 0..2 packets (or a new connection re-using a forward tuple) arriving between the scanner's judgement and the kernel cleaner; distinct = distinct op sequence; non-trivial = a scan queued at least one entry"
 	s := &state{h: h}
 	s.c = buildCleaner(h.OutDir)
 	defer func() { s.c.in.Close(); s.c.cmd.Wait() }()
